@@ -8,6 +8,40 @@ import vlib, fsrun
 PROP = "C22"
 
 
+def _wdir():
+    import multiprocessing
+    if multiprocessing.current_process().name == "MainProcess":
+        return fsrun.fresh_dir("crash-%d-main" % os.getpid())
+    return fsrun.fresh_dir("crash-%d-%d" % (os.getppid(), os.getpid()))
+
+
+def _fsize_case(t):
+    lal, name, report, n, full, hdr_len = t
+    d = _wdir()
+    open(os.path.join(d, "a.lalrpop"), "w").write(fsrun.text_of(name))
+    args = ["-f"] + (["--report"] if report else []) + ["a.lalrpop"]
+    code, out = fsrun.run_lalrpop(lal, args, d, fsize=n)
+    was_killed = code in (-signal.SIGXFSZ, 128 + signal.SIGXFSZ) or code < 0
+    left = os.path.getsize(os.path.join(d, "a.rs")) if os.path.exists(os.path.join(d, "a.rs")) else None
+    code2, out2 = fsrun.run_lalrpop(lal, (["--report"] if report else []) + ["a.lalrpop"], d)
+    final = open(os.path.join(d, "a.rs"), "rb").read() if os.path.exists(os.path.join(d, "a.rs")) else None
+    return (was_killed, left, final == full, None if final is None else len(final), final is not None and full.startswith(final))
+
+
+def _shim_case(t):
+    lal, shim, name, var, k, full = t
+    d = _wdir()
+    open(os.path.join(d, "a.lalrpop"), "w").write(fsrun.text_of(name))
+    if var == "CRASH_AT_OP" and k % 2 == 0:
+        open(os.path.join(d, "a.rs"), "wb").write(b"// stale\n")     # an older output is present
+    code, out = fsrun.run_lalrpop(lal, ["-f", "a.lalrpop"], d, env={"LD_PRELOAD": shim, "CRASH_DIR": d, var: str(k)})
+    was_killed = code < 0 or code == 137
+    left = {f: os.path.getsize(os.path.join(d, f)) for f in sorted(os.listdir(d)) if f != "a.lalrpop"}
+    code2, out2 = fsrun.run_lalrpop(lal, ["a.lalrpop"], d)
+    final = open(os.path.join(d, "a.rs"), "rb").read() if os.path.exists(os.path.join(d, "a.rs")) else None
+    return (was_killed, left, final == full, None if final is None else len(final), final is not None and full.startswith(final))
+
+
 def run(tier):
     t0 = time.time()
     rep = vlib.Reporter(PROP)
@@ -17,6 +51,9 @@ def run(tier):
     ref = fsrun.reference_outputs(lal)
     cases, nviol, killed = [], 0, 0
     samples = []
+    import multiprocessing
+    pool = multiprocessing.Pool(12)
+    tasks = []
     for name in ["g0", "g2"]:
         full = ref[name]
         hdr_len = len(b"\n".join(full.split(b"\n", 2)[:2])) + 1
@@ -29,37 +66,32 @@ def run(tier):
             for n in sorted(offsets):
                 if report and n % (4 if tier == "thorough" else 7):
                     continue
-                d = fsrun.fresh_dir("crash")
-                open(os.path.join(d, "a.lalrpop"), "w").write(fsrun.text_of(name))
-                args = ["-f"] + (["--report"] if report else []) + ["a.lalrpop"]
-                code, out = fsrun.run_lalrpop(lal, args, d, fsize=n)
-                was_killed = code in (-signal.SIGXFSZ, 128 + signal.SIGXFSZ) or code < 0
-                killed += 1 if was_killed else 0
-                left = open(os.path.join(d, "a.rs"), "rb").read() if os.path.exists(os.path.join(d, "a.rs")) else None
-                code2, out2 = fsrun.run_lalrpop(lal, (["--report"] if report else []) + ["a.lalrpop"], d)
-                final = open(os.path.join(d, "a.rs"), "rb").read() if os.path.exists(os.path.join(d, "a.rs")) else None
-                cases.append((name, report, n))
-                if len(samples) < 2 and was_killed:
-                    samples.append({"grammar": name, "report": report, "fsize_limit": n, "left_after_crash": None if left is None else len(left), "final_ok": final == full})
-                if final != full:
-                    nviol += 1
-                    key = "truncated-output-kept" if (final is not None and full.startswith(final)) else "wrong-output-after-crash"
-                    if nviol <= 3:
-                        rep.violation(key, {"what": "a forced build was killed while writing (file size limit %d bytes); the following normal build %s" %
-                                                    (n, "kept the truncated %d-byte file although the complete output has %d bytes" % (len(final), len(full)) if final is not None else "left no output"),
-                                            "grammar": name, "report": report, "crash_offset": n, "header_bytes": hdr_len,
-                                            "replay": "cd <dir with a.lalrpop>; (ulimit -f is in 512-byte blocks: use python resource.setrlimit(RLIMIT_FSIZE, %d)); lalrpop -f a.lalrpop; lalrpop a.lalrpop" % n})
+                tasks.append((lal, name, report, n, full, hdr_len))
+    for (lal_, name, report, n, full, hdr_len), (was_killed, left, final_ok, final_len, is_prefix) in zip(tasks, pool.imap(_fsize_case, tasks, chunksize=8)):
+        killed += 1 if was_killed else 0
+        cases.append((name, report, n))
+        if len(samples) < 2 and was_killed:
+            samples.append({"grammar": name, "report": report, "fsize_limit": n, "left_after_crash": left, "final_ok": final_ok})
+        if not final_ok:
+            nviol += 1
+            key = "truncated-output-kept" if is_prefix else "wrong-output-after-crash"
+            if nviol <= 3:
+                rep.violation(key, {"what": "a forced build was killed while writing (file size limit %d bytes); the following normal build %s" %
+                                            (n, "kept the truncated %d-byte file although the complete output has %d bytes" % (final_len, len(full)) if final_len is not None else "left no output"),
+                                    "grammar": name, "report": report, "crash_offset": n, "header_bytes": hdr_len,
+                                    "replay": "cd <dir with a.lalrpop>; (ulimit -f is in 512-byte blocks: use python resource.setrlimit(RLIMIT_FSIZE, %d)); lalrpop -f a.lalrpop; lalrpop a.lalrpop" % n})
     # second injector: cumulative crash points over the whole run (every file below the directory,
     # write/copy_file_range/sendfile bytes and create/unlink/rename operations), so that a crash while
     # the finished temporary file is being installed is reached too
     shim = vlib.build_shim()
     nshim = 0
+    tasks = []
     for name in ["g0", "g2"]:
         full = ref[name]
-        d = fsrun.fresh_dir("crash")
+        d = _wdir()
         open(os.path.join(d, "a.lalrpop"), "w").write(fsrun.text_of(name))
         base_env = {"LD_PRELOAD": shim, "CRASH_DIR": d}
-        logf = os.path.join(vlib.CACHE, "fs", "shim.log")
+        logf = os.path.join(vlib.CACHE, "fs", "shim-%d.log" % os.getpid())
         if os.path.exists(logf):
             os.remove(logf)
         code, out = fsrun.run_lalrpop(lal, ["-f", "a.lalrpop"], d, env=dict(base_env, CRASH_LOG=logf))
@@ -76,25 +108,22 @@ def run(tier):
             pts |= {base + k for k in (0, 1, hdr_len - 1, hdr_len, hdr_len + 1, len(full) - 1) if base + k < tot_bytes}
         plan = [("CRASH_AT_BYTES", k) for k in sorted(pts)] + [("CRASH_AT_OP", k) for k in range(1, tot_ops + 1)]
         for var, k in plan:
-            d = fsrun.fresh_dir("crash")
-            open(os.path.join(d, "a.lalrpop"), "w").write(fsrun.text_of(name))
-            if var == "CRASH_AT_OP" and k % 2 == 0:
-                open(os.path.join(d, "a.rs"), "wb").write(b"// stale\n")     # an older output is present
-            code, out = fsrun.run_lalrpop(lal, ["-f", "a.lalrpop"], d, env={"LD_PRELOAD": shim, "CRASH_DIR": d, var: str(k)})
-            was_killed = code < 0 or code == 137
-            killed += 1 if was_killed else 0
-            left = {f: os.path.getsize(os.path.join(d, f)) for f in sorted(os.listdir(d)) if f != "a.lalrpop"}
-            code2, out2 = fsrun.run_lalrpop(lal, ["a.lalrpop"], d)
-            final = open(os.path.join(d, "a.rs"), "rb").read() if os.path.exists(os.path.join(d, "a.rs")) else None
-            cases.append((name, var, k)); nshim += 1
-            if final != full:
-                nviol += 1
-                key = "truncated-output-kept" if (final is not None and full.startswith(final)) else "wrong-output-after-crash"
-                if nviol <= 3:
-                    rep.violation(key, {"what": "a forced build was killed (%s=%d, cumulative over all files it writes); files left: %r; the following normal build %s" %
-                                                (var, k, left, "kept a %d-byte a.rs although the complete output has %d bytes" % (len(final), len(full)) if final is not None else "left no output"),
-                                        "grammar": name, "crash_point": [var, k], "files_left": left, "grammar_text": fsrun.text_of(name),
-                                        "replay": "LD_PRELOAD=/verif/.cache/crashshim.so CRASH_DIR=$PWD %s=%d lalrpop -f a.lalrpop; lalrpop a.lalrpop; compare a.rs with a clean build" % (var, k)})
+            tasks.append((lal, shim, name, var, k, full))
+    for (lal_, shim_, name, var, k, full), (was_killed, left, final_ok, final_len, is_prefix) in zip(tasks, pool.imap(_shim_case, tasks, chunksize=8)):
+        killed += 1 if was_killed else 0
+        cases.append((name, var, k)); nshim += 1
+        if not final_ok:
+            nviol += 1
+            key = "truncated-output-kept" if is_prefix else "wrong-output-after-crash"
+            if nviol <= 3:
+                rep.violation(key, {"what": "a forced build was killed (%s=%d, cumulative over all files it writes); files left: %r; the following normal build %s" %
+                                            (var, k, left, "kept a %d-byte a.rs although the complete output has %d bytes" % (final_len, len(full)) if final_len is not None else "left no output"),
+                                    "grammar": name, "crash_point": [var, k], "files_left": left, "grammar_text": fsrun.text_of(name),
+                                    "replay": "LD_PRELOAD=/verif/.cache/crashshim.so CRASH_DIR=$PWD %s=%d lalrpop -f a.lalrpop; lalrpop a.lalrpop; compare a.rs with a clean build" % (var, k)})
+    pool.close(); pool.join()
+    import glob, shutil
+    for f in glob.glob(os.path.join(vlib.CACHE, "fs", "crash-%d-*" % os.getpid())) + glob.glob(os.path.join(vlib.CACHE, "fs", "shim-%d.log" % os.getpid())):
+        shutil.rmtree(f, ignore_errors=True) if os.path.isdir(f) else os.remove(f)
     cov = {"obligations": nobl + len(cases), "discharged": ndis + len(cases) - nviol,
            "checker_cmd": "make -C coq; coqc Props/C22.v; python crash enumeration with RLIMIT_FSIZE on the real binary",
            "trusted_base": vlib.TRUSTED_COMMON + ["OS semantics of RLIMIT_FSIZE/SIGXFSZ: the file holds exactly the bytes written before the limit", "rename(2) atomicity within a directory", "harness/shim/crashshim.c (LD_PRELOAD hooks of write/copy_file_range/sendfile/open/unlink/rename)"],
